@@ -52,6 +52,14 @@ pub mod ffi {
         let idx = idx.try_into().ok();
         match idx.and_then(|idx| this.get(idx)) {
             Some(src) => {
+                #[cfg(roto_verif)]
+                crate::verif::sched::point(
+                    crate::verif::sched::Event::PtrEscaped {
+                        list: std::sync::Arc::as_ptr(&this.0) as usize,
+                        addr: src.as_ptr() as usize,
+                    },
+                );
+
                 // We got a pointer into the list, clone it into out at the correct alignment
 
                 // To leave this value in a valid state even if a panic happens
@@ -73,6 +81,14 @@ pub mod ffi {
                 // by writing it to the next multiple of the alignment. The offset
                 // is therefore the correct byte offset.
                 let dst = unsafe { out.byte_add(offset) };
+
+                #[cfg(roto_verif)]
+                crate::verif::sched::point(
+                    crate::verif::sched::Event::PtrUse {
+                        list: std::sync::Arc::as_ptr(&this.0) as usize,
+                        addr: src.as_ptr() as usize,
+                    },
+                );
 
                 // If there is no clone function, we can optimize this by doing a memcpy.
                 match raw.vtable.clone_fn {
@@ -242,6 +258,15 @@ pub mod boundary {
         /// Get the element at index `idx`
         pub fn get(&self, idx: usize) -> Option<T> {
             let ptr = self.inner.get(idx)?;
+
+            #[cfg(roto_verif)]
+            {
+                use crate::verif::sched::{Event, point};
+                let list = Arc::as_ptr(&self.inner.0) as usize;
+                let addr = ptr.as_ptr() as usize;
+                point(Event::PtrEscaped { list, addr });
+                point(Event::PtrUse { list, addr });
+            }
 
             // SAFETY: The list has values of T::Transformed, which means that
             // this cast is valid.
@@ -516,6 +541,11 @@ impl ErasedList {
         // This drop is important in the case that self == other
         // We need to ensure we don't lock the mutex twice
         drop(a);
+
+        #[cfg(roto_verif)]
+        crate::verif::sched::point(crate::verif::sched::Event::ConcatMiddle {
+            list: Arc::as_ptr(&other.0) as usize,
+        });
 
         let b = other.0.lock().unwrap();
 
@@ -935,6 +965,14 @@ impl RawList {
                         new_capacity,
                     )
                 };
+                #[cfg(roto_verif)]
+                crate::verif::sched::point(
+                    crate::verif::sched::Event::BufferRealloc {
+                        old: ptr.as_ptr() as usize,
+                        new: new_ptr.as_ptr() as usize,
+                        old_bytes: self.vtable.size() * self.capacity,
+                    },
+                );
                 self.ptr = new_ptr;
             } else {
                 // SAFETY: At this point, we know that the size of the layout
@@ -1058,6 +1096,13 @@ impl RawList {
         }
 
         if let Some(ptr) = self.current_memory() {
+            #[cfg(roto_verif)]
+            crate::verif::sched::point(
+                crate::verif::sched::Event::BufferFreed {
+                    old: ptr.as_ptr() as usize,
+                    old_bytes: self.vtable.size() * self.capacity,
+                },
+            );
             // SAFETY: We allocated the ptr with alloc_array or realloc_array.
             unsafe {
                 dealloc_array(ptr, self.vtable.layout(), self.capacity)
